@@ -28,13 +28,16 @@ void c05_exp(vf::Tape & t, vf::Ctx & ctx)
   const MatL Hr = orc::d2r_exp_of<S>(aL);
   ctx.le("d2r_exp==d(dr_exp)/da", rel(orc::toL(G::d2r_exp(a)), Hr, 1e-300), kTol);
   ctx.le("d2r_expinv==d(dr_expinv)/da", rel(orc::toL(G::d2r_expinv(a)), orc::d2r_expinv_of<S>(aL), 1e-300), kTol);
-  // left counterparts from their own definition dl_exp(a) = Ad(exp a) dr_exp(a) = phi1(ad a)
-  auto dJl      = orc::ddr_exp_of<S, true>(aL);
-  const MatL Hl = orc::stack_hessian<S>(dJl);
-  ctx.le("d2l_exp==d(dl_exp)/da", rel(orc::toL(G::d2l_exp(a)), Hl, 1e-300), kTol);
-  const MatL Jli = orc::inverse(orc::dl_exp_of<S, LD>(aL));
-  for (auto & d : dJl) d = (-Jli * d * Jli).eval();
-  ctx.le("d2l_expinv==d(dl_expinv)/da", rel(orc::toL(G::d2l_expinv(a)), orc::stack_hessian<S>(dJl), 1e-300), kTol);
+  // left counterparts from their own definition dl_exp(a) = Ad(exp a) dr_exp(a) = phi1(ad a) (every 4th case: cost)
+  if (t.choice(4) == 0) {
+    ctx.label("with-left-hessians");
+    auto dJl      = orc::ddr_exp_of<S, true>(aL);
+    const MatL Hl = orc::stack_hessian<S>(dJl);
+    ctx.le("d2l_exp==d(dl_exp)/da", rel(orc::toL(G::d2l_exp(a)), Hl, 1e-300), kTol);
+    const MatL Jli = orc::inverse(orc::dl_exp_of<S, LD>(aL));
+    for (auto & d : dJl) d = (-Jli * d * Jli).eval();
+    ctx.le("d2l_expinv==d(dl_expinv)/da", rel(orc::toL(G::d2l_expinv(a)), orc::stack_hessian<S>(dJl), 1e-300), kTol);
+  }
   if (S::Commutative) ctx.require("commutative: Hessians exactly zero", G::d2r_exp(a).isZero(0) && G::d2r_expinv(a).isZero(0));
   // free-function interface agrees bit for bit
   ctx.require("free d2r_exp==member", (smooth::d2r_exp<G>(a) - G::d2r_exp(a)).isZero(0) && (smooth::d2r_expinv<G>(a) - G::d2r_expinv(a)).isZero(0));
